@@ -54,7 +54,21 @@ Dedups == {
   [tag |-> <<"union", "A", "proj">>, q |-> UnionQ(FALSE, Project(A, <<Col(1)>>), Project(Scan("B"), <<Col(2)>>))],
   [tag |-> <<"count_distinct_pair", "A", "agg_over_distinct">>, q |-> AggQ(DistinctQ(A), <<>>, <<CountStar>>)] }
 
-Queries == Ungrouped \cup Grouped1 \cup Grouped2 \cup GroupExpr \cup Empty \cup Having \cup Rollups \cup Dedups
+(* a filter on a grouping column above ROLLUP / CUBE (outer WHERE and HAVING): the rolled-up rows have NULL there and must be
+   filtered AFTER grouping; and consumers of a DISTINCT that use only some of its columns (or none): the DISTINCT still
+   deduplicates on all of them *)
+FilteredSets == {
+  [tag |-> <<"rollup_filter", "A", "k2_eq">>, q |-> Filter(RollupQ(<<Col(1), Col(2)>>, <<CountStar>>, "rollup", << <<1, 2>>, <<1>>, <<>> >>, <<>>), Eq(Col(2), LitI(1)))],
+  [tag |-> <<"rollup_filter", "A", "k1_notnull">>, q |-> Filter(RollupQ(<<Col(1), Col(2)>>, <<CountStar>>, "rollup", << <<1, 2>>, <<1>>, <<>> >>, <<>>), NotNullE(Col(1)))],
+  [tag |-> <<"cube_filter", "A", "k1_eq">>, q |-> Filter(RollupQ(<<Col(1), Col(2)>>, <<CountStar, AggF("sum", Col(2))>>, "cube", << <<1, 2>>, <<1>>, <<2>>, <<>> >>, <<>>), Eq(Col(1), LitI(1)))],
+  [tag |-> <<"rollup_filter", "A", "k1_isnull">>, q |-> Filter(RollupQ(<<Col(1)>>, <<CountStar>>, "rollup", << <<1>>, <<>> >>, <<>>), IsNullE(Col(1)))],
+  [tag |-> <<"distinct_consumer", "A", "count">>, q |-> AggQ(DistinctQ(A), <<>>, <<CountStar>>)],
+  [tag |-> <<"distinct_consumer", "A", "col1">>, q |-> Project(DistinctQ(A), <<Col(1)>>)],
+  [tag |-> <<"distinct_consumer", "A", "col2_filter">>, q |-> Project(Filter(DistinctQ(A), NotNullE(Col(2))), <<Col(2)>>)],
+  [tag |-> <<"distinct_consumer", "A", "group_col1">>, q |-> AggQ(DistinctQ(A), <<Col(1)>>, <<CountStar>>)],
+  [tag |-> <<"distinct_consumer", "S", "sum_col1">>, q |-> AggQ(DistinctQ(S), <<>>, <<AggF("sum", Col(1))>>)] }
+
+Queries == FilteredSets \cup Ungrouped \cup Grouped1 \cup Grouped2 \cup GroupExpr \cup Empty \cup Having \cup Rollups \cup Dedups
 
 VARIABLE c
 Init == c \in Queries
